@@ -49,7 +49,7 @@ def make_cfg(params, invariants=('Emit',), spec='Spec'):
 
 def _spec_hash():
     h = hashlib.sha256()
-    for f in ('HplGrammar.tla', 'HplAst.tla', 'HplTypes.tla', 'MC_Grammar.tla', 'HplTypedGen.tla'):
+    for f in ('HplGrammar.tla', 'HplAst.tla', 'HplTypes.tla', 'MC_Grammar.tla', 'HplTypedGen.tla', 'HplShapes.tla'):
         with open(os.path.join(tlc.SPEC, f), 'rb') as fh:
             h.update(fh.read())
     return h
@@ -87,12 +87,20 @@ def enumerate_language(params, cache=True, simulate=None, timeout=3600):
     return sents, r
 
 
-def enumerate_family(family, cache=True, timeout=3600):
+def enumerate_shapes(family, cache=True, timeout=3600):
+    """All members of a property-shape family of spec/HplShapes.tla."""
+    return enumerate_family(family, cache=cache, timeout=timeout, module='MC_Shapes', spec='SSpec', const='ShapeFamily')
+
+
+def enumerate_family(family, cache=True, timeout=3600, module='MC_TypedGen', spec='TSpec', const='Family'):
     """All members of a typed family of spec/HplTypedGen.tla: list of {'toks','ast'}."""
-    cfg = make_cfg({'Family': family}, spec='TSpec')
+    params = {'Family': family if const == 'Family' else 'none'}
+    if const != 'Family':
+        params[const] = family
+    cfg = make_cfg(params, spec=spec)
     h = _spec_hash()
     h.update(cfg.encode())
-    key = 'fam-' + family + '-' + h.hexdigest()[:16]
+    key = 'fam-' + module + '-' + family + '-' + h.hexdigest()[:16]
     cdir = os.path.join(tlc.BUILD, 'lang')
     os.makedirs(cdir, exist_ok=True)
     cpath = os.path.join(cdir, key + '.json')
@@ -100,7 +108,7 @@ def enumerate_family(family, cache=True, timeout=3600):
         with open(cpath) as f:
             d = json.load(f)
         return d['sentences'], d['res']
-    res = tlc.run_model('MC_TypedGen', cfg_text=cfg, workers=1, timeout=timeout)
+    res = tlc.run_model(module, cfg_text=cfg, workers=1, timeout=timeout)
     if not res['ok']:
         raise tlc.MachineryError('typed generator failed:\n' + res['out'][-3000:])
     sents, seen = [], set()
